@@ -566,7 +566,7 @@ theorem ext_workerCancelled (p : Pool) (t : Nat) (tk : PTask) (h : Ext p0 p) : E
   unfold workerCancelled
   ex2 [ext_taskCancellation, ext_afterWorker, ext_suspendTask]
 
-theorem ext_workerNext (p : Pool) (t : Nat) (h : Ext p0 p) : Ext p0 (p.workerNext t) := by
+theorem ext_workerNext (p : Pool) (t : Nat) (tk : PTask) (h : Ext p0 p) : Ext p0 (p.workerNext t tk) := by
   unfold workerNext
   ex2 [ext_suspendTask]
 
